@@ -23,11 +23,11 @@ def listMax : List Int → Int
   | [] => 0
   | x :: xs => xs.foldl max x
 
-/-- the newest span of `tr` the selector's conditions select -/
-def selRec (o : Oracles) (c : Ctx) (d : TraceDb) (s : Selector) (tr : Bytes) : Int :=
+/-- start times of the spans of `tr` the selector's conditions select -/
+def selTs (o : Oracles) (c : Ctx) (d : TraceDb) (s : Selector) (tr : Bytes) : List Int :=
   match s.attrs with
-  | some e => listMax ((matchedSpans o c d e tr).map (spanTs c d))
-  | none => 0
+  | some e => (matchedSpans o c d e tr).map (spanTs c d)
+  | none => []
 
 /-- ids of the spans of `tr` the selector's conditions select -/
 def selSpans (o : Oracles) (c : Ctx) (d : TraceDb) (s : Selector) (tr : Bytes) : List Bytes :=
@@ -39,9 +39,9 @@ def selSpans (o : Oracles) (c : Ctx) (d : TraceDb) (s : Selector) (tr : Bytes) :
 def matchedSels (f : Selector → Bool) (script : Script) : List Selector :=
   ((groups script).filter (fun g => g.all f)).flatten
 
-/-- **recency** of a trace the script describes -/
+/-- **recency** of a trace the script describes: the start of the newest span selected by a selector of a matching group -/
 def traceRec (o : Oracles) (ao : AggOracles) (c : Ctx) (d : TraceDb) (script : Script) (tr : Bytes) : Int :=
-  listMax ((matchedSels (fun s => selMatches o ao c d s tr) script).map (fun s => selRec o c d s tr))
+  listMax ((matchedSels (fun s => selMatches o ao c d s tr) script).flatMap (fun s => selTs o c d s tr))
 
 /-- **the spans** returned with a trace: those selected by the selectors of its matching groups -/
 def traceSpans (o : Oracles) (ao : AggOracles) (c : Ctx) (d : TraceDb) (script : Script) (tr : Bytes) : List Bytes :=
